@@ -78,7 +78,16 @@ func (rt *runtime) cmplEvaluateNodeStatement(node nodeStatement) Value {
 				rt.labels = nil
 			}
 		}()
-		return rt.cmplEvaluateNodeStatement(node.statement)
+		value := rt.cmplEvaluateNodeStatement(node.statement)
+		// 12.12: (break, V, L) where L is this statement's label completes normally.
+		// Blocks, loops and switches match their label set themselves, other
+		// statements (try, if, with) do not.
+		if value.kind == valueResult {
+			if res, ok := value.value.(result); ok && res.kind == resultBreak && res.target == node.label {
+				return emptyValue
+			}
+		}
+		return value
 
 	case *nodeReturnStatement:
 		if node.argument != nil {
